@@ -9,7 +9,7 @@ echo "# quick-check VIOLATION counts per seed ($SEEDS); 'clean' = unpatched /rep
 run() { # name prop repo
   local line="$1 $2:"
   for seed in $SEEDS; do
-    n=$(cd /verif && VERIF_SEED=$seed VERIF_EVIDENCE_DIR=$S/ev VERIF_REPLAY_DIR=$S/replays VERIF_REPO=$3 PYTHONPATH=$3 timeout 3000 /venv/bin/python -m dsim check $2 --tier quick 2>&1 | grep -cE "^VIOLATION")
+    n=$(cd ${VERIF_DIR:-/verif} && VERIF_SEED=$seed VERIF_EVIDENCE_DIR=$S/ev VERIF_REPLAY_DIR=$S/replays VERIF_REPO=$3 PYTHONPATH=$3 timeout 3000 /venv/bin/python -m dsim check $2 --tier quick 2>&1 | grep -cE "^VIOLATION")
     line="$line seed$seed=$n"
   done
   echo "$line" | tee -a "$OUT"
